@@ -1,9 +1,245 @@
 package props
 
-import "verif/internal/core"
+import (
+	"bufio"
+	"bytes"
+	"encoding/json"
+	"fmt"
+	"net/http"
+	"path/filepath"
+	"sync"
+	"time"
 
-// C08 — stub, replaced by the real check.
+	"verif/internal/core"
+	"verif/internal/fakes"
+)
+
+// c08Base is the independent specification of the un-jittered delay in ns:
+// doubling from 1 ms, capped at 3 s.
+func c08Base(n uint64) int64 {
+	const ms, cap = int64(1000000), int64(3000000000)
+	if n >= 12 {
+		return cap
+	}
+	b := ms << n
+	if b > cap {
+		return cap
+	}
+	return b
+}
+
+// C08 — backoff delays are bounded and strictly positive.
 func C08(r *core.Run) {
-	r.Broken("check not implemented yet")
-	r.Finish(1)
+	r.SetRule("pure part: utils.ExponentialBackoffDuration(n) in a race-built worker for n in 0..70, around 2^31, 2^32, 2^63, 2^64-1 and random 64-bit values, many draws each, against an independent integer specification (0 < 0.9*base-1ns <= d <= 1.1*base+1ns, base = min(2^n ms, 3 s)); black-box part: real agent against a fake proxy failing list calls by script (500 / garbage / reset), arrival gaps judged only by load-safe inequalities (gap_i >= 0.9*base(i); reset after success shown by a short gap after 11 failures + 1 success); class = n (pure) or (script, failure kind)")
+	r.Assume("a gap can only be lengthened by load, so lower bounds are load-safe; the reset clause is reported only if the long gap repeats in 3 independent repetitions; the soft upper bound on gaps never decides")
+	bin := r.MustBuild(r.BuildWorker())
+	agentBin := r.MustBuild(r.BuildRepoBinary("./agent", "agent"))
+
+	// ---- pure part
+	rng := r.Rand("c08")
+	var ns []uint64
+	for n := uint64(0); n <= 70; n++ {
+		ns = append(ns, n)
+	}
+	for _, p := range []uint64{1 << 31, 1 << 32, 1 << 63} {
+		ns = append(ns, p-1, p, p+1)
+	}
+	ns = append(ns, ^uint64(0), ^uint64(0)-1)
+	for i := 0; i < r.Pick(200, 20000); i++ {
+		ns = append(ns, rng.Uint64()>>uint(rng.Intn(64)))
+	}
+	draws := r.Pick(60, 100)
+	spec, _ := json.Marshal(map[string]interface{}{"ns": ns, "draws": draws})
+	out, logPath, err := r.RunWorker(bin, "c08", spec, 5*time.Minute)
+	if err != nil {
+		for _, ex := range core.CrashMarkers(logPath) {
+			r.Violate(core.CrashSignature(ex), "backoff computation crashed: "+ex, nil, nil)
+		}
+		if len(core.CrashMarkers(logPath)) == 0 {
+			r.Broken("c08 worker: " + err.Error())
+		}
+	}
+	sc := bufio.NewScanner(bytes.NewReader(out))
+	calls := 0
+	for sc.Scan() {
+		var res struct {
+			N     uint64 `json:"n"`
+			Min   int64  `json:"min_ns"`
+			Max   int64  `json:"max_ns"`
+			Panic string `json:"panic"`
+		}
+		if json.Unmarshal(sc.Bytes(), &res) != nil {
+			continue
+		}
+		calls += draws
+		cls := fmt.Sprintf("pure|n=%d", res.N)
+		if res.N > 70 {
+			cls = "pure|n>70"
+		}
+		r.Cases(cls, 1)
+		base := c08Base(res.N)
+		lo, hi := base/10*9-1, base/10*11+1
+		if res.Panic != "" {
+			r.Violate("C08:pure:panic", fmt.Sprintf("ExponentialBackoffDuration(%d) panicked: %s", res.N, res.Panic), res, nil)
+			continue
+		}
+		if res.Min <= 0 {
+			r.Violate("C08:pure:non-positive", fmt.Sprintf("ExponentialBackoffDuration(%d) returned %d ns", res.N, res.Min), res, nil)
+		} else if res.Min < lo || res.Max > hi {
+			which := "n<=11"
+			if res.N > 11 {
+				which = "n>11"
+			}
+			r.Violate("C08:pure:out-of-range:"+which, fmt.Sprintf("ExponentialBackoffDuration(%d) in [%d,%d] ns, allowed [%d,%d] ns", res.N, res.Min, res.Max, lo, hi), res, nil)
+		}
+		if res.N == 3 || res.N == 40 {
+			r.Sample(res)
+		}
+	}
+	r.Set("pure_calls", calls)
+
+	// ---- black-box part
+	md, err := fakes.NewMetadata()
+	if err != nil {
+		r.Broken(err.Error())
+		r.Finish(1)
+	}
+	defer md.Close()
+	kinds := []string{"500", "garbage", "reset", "mixed"}
+	nScripts := r.Pick(2, 12)
+	var wg sync.WaitGroup
+	for si := 0; si < nScripts; si++ {
+		wg.Add(1)
+		go func(si int) {
+			defer wg.Done()
+			kind := kinds[si%len(kinds)]
+			suspect := 0
+			reps := 0
+			for rep := 0; rep < 3; rep++ {
+				reps++
+				long, ok := c08Script(r, agentBin, md, si, rep, kind)
+				if !ok {
+					return
+				}
+				if !long {
+					break
+				}
+				suspect++
+			}
+			if suspect == 3 {
+				r.Violate("C08:no-reset-after-success", fmt.Sprintf("script %d (%s): after 11 consecutive failures and one success the next failure was followed by a gap >= 0.9*base(11)=1.84s in 3 of 3 repetitions (the shortest delay is ~1ms)", si, kind), nil, nil)
+			} else if suspect > 0 {
+				r.Inconclusive(fmt.Sprintf("script %d: long gap after success in %d of %d repetitions", si, suspect, reps))
+			}
+		}(si)
+	}
+	wg.Wait()
+	r.JudgeRaces(core.ParseRaceLogs(filepath.Join(r.WorkDir, "race-")))
+	r.Finish(r.Pick(100, 5000))
+}
+
+// c08Script runs: F=11 failures, 1 success, 3 failures, 1 success, 2 failures
+// and judges the arrival gaps. Returns whether the gap after the first
+// post-success failure was long (>= 0.9*base(11)).
+func c08Script(r *core.Run, agentBin string, md *fakes.Metadata, si, rep int, kind string) (long bool, ok bool) {
+	px, err := fakes.NewProxy()
+	if err != nil {
+		r.Broken(err.Error())
+		return false, false
+	}
+	defer px.Close()
+	px.ListWait = 20 * time.Millisecond
+	script := []bool{}
+	for i := 0; i < 11; i++ {
+		script = append(script, false)
+	}
+	script = append(script, true, false, false, false, true, false, false, true)
+	var mu sync.Mutex
+	var arrivals []time.Time
+	idx := 0
+	px.OnList = func(w http.ResponseWriter, req *http.Request) bool {
+		mu.Lock()
+		arrivals = append(arrivals, time.Now())
+		i := idx
+		idx++
+		mu.Unlock()
+		if i >= len(script) || script[i] {
+			return false // success: default empty list
+		}
+		k := kind
+		if k == "mixed" {
+			k = []string{"500", "garbage", "reset"}[i%3]
+		}
+		switch k {
+		case "500":
+			http.Error(w, "scripted failure", 500)
+		case "garbage":
+			w.WriteHeader(200)
+			w.Write([]byte(`{"not":"a list"`))
+		case "reset":
+			if hj, ok := w.(http.Hijacker); ok {
+				c, _, _ := hj.Hijack()
+				c.Close()
+			}
+		}
+		return true
+	}
+	agent, err := startAgent(r, agentBin, fmt.Sprintf("agent8-%d-%d", si, rep), md, px.URL(), "127.0.0.1:1", fmt.Sprintf("b8-%d", si))
+	if err != nil {
+		r.Broken(err.Error())
+		return false, false
+	}
+	defer agent.Kill()
+	deadline := time.Now().Add(40 * time.Second)
+	for time.Now().Before(deadline) {
+		mu.Lock()
+		n := len(arrivals)
+		mu.Unlock()
+		if n > len(script) {
+			break
+		}
+		time.Sleep(20 * time.Millisecond)
+	}
+	mu.Lock()
+	arr := append([]time.Time(nil), arrivals...)
+	mu.Unlock()
+	if len(arr) <= len(script) {
+		if !agent.Alive() {
+			judgeProcs(r, true, agent)
+		}
+		r.Inconclusive(fmt.Sprintf("script %d: only %d of %d list calls arrived within 40s", si, len(arr), len(script)+1))
+		return false, true
+	}
+	// gaps: after the k-th consecutive failure (k=1..) the agent sleeps base(k-1)
+	consec := 0
+	var gaps []int64
+	for i := 0; i < len(script); i++ {
+		gap := arr[i+1].Sub(arr[i])
+		if script[i] {
+			consec = 0
+			continue
+		}
+		consec++
+		base := c08Base(uint64(consec - 1))
+		gaps = append(gaps, gap.Microseconds())
+		r.Cases(fmt.Sprintf("blackbox|%s|failure#%d", kind, consec), 1)
+		if i == 12 {
+			// first failure after the first success: reset clause
+			if gap.Nanoseconds() >= c08Base(11)/10*9 {
+				long = true
+			}
+			continue
+		}
+		if gap.Nanoseconds() < base/10*9 {
+			r.Violate("C08:gap-too-short", fmt.Sprintf("script %d (%s): after %d consecutive failures the next list call arrived after %v, less than 0.9*%v (busy loop / missing sleep)", si, kind, consec, gap, time.Duration(base)), nil, gaps)
+		}
+		if !r.Quick() && gap.Nanoseconds() > base/10*11+2000000000 {
+			r.Inconclusive(fmt.Sprintf("script %d: gap %v after %d failures exceeds 1.1*base+2s (soft bound, load-dependent)", si, gap, consec))
+		}
+	}
+	if rep == 0 && si == 0 {
+		r.Sample(map[string]interface{}{"script": "11 failures, success, 3 failures, success, 2 failures, success", "kind": kind, "gaps_us_after_each_failure": gaps})
+	}
+	r.Add("list_calls_timed", len(arr))
+	return long, true
 }
